@@ -15,25 +15,39 @@ SimInit == Init /\ hist = << >>
 \* `\E x \in {RandomElement(S)}` binds x to one drawn value (a LET would redraw at every use)
 One(S) == {RandomElement(S)}
 PickOne(good, all) == {Pick(good, all)}
+\* four calls are drawn per step and TLC takes one of their successors: a step costs four successor
+\* computations instead of one per call of the interface (a disabled draw -- save on an occupied path,
+\* issue beyond MaxCtrl -- simply contributes no successor)
+NActs == 27
 SimStep ==
   \E a \in One(Accts), b \in One(Accts), o \in One(Owners), p \in One(SPaths), q \in One(SPaths),
      pp \in One(PPaths), n \in One(Names), v \in One(VTypes), t \in One(Tags \cup {""}),
      bt \in One(IssueBT), abt \in One(AcctBT), kd \in One({"storage", "account"}) :
-  \E id \in PickOne({i \in Ids : Live(o, i)}, 1..(MaxCtrl + 1)) :
-     \/ Put(o, p, v) \/ Take(o, p) \/ Put(o, q, v)
-     \/ Issue(o, p, bt) \/ IssueAccount(o, abt)
-     \/ Retarget(o, id, q) \/ SetTag(o, id, t) \/ Delete(o, id)
-     \/ GetController(o, id, kd) \/ GetControllers(o, p) \/ ForEachController(o, q) \/ AcctControllers(o)
-     \/ Exists(a, pp) \/ Unpublish(a, pp)
-     \/ \E w \in PickOne({w \in Wants : PubBorrowOK(a, pp, w)}, Wants) : PubBorrow(a, pp, w)
-     \/ \E w \in PickOne({w \in Wants : GetOK(a, pp, w)}, Wants) : Get(a, pp, w)
-     \/ (caps # {} /\ \E c \in One(caps), c2 \in One(caps) :
-           \/ \E w \in PickOne({w \in Wants : BorrowOK(c, w)}, Wants) : CapBorrow(c, w)
-           \/ \E w \in One(Wants) : CapBorrow(c2, w)
-           \/ \E pa \in PickOne({c.acct}, Accts) : Publish(pa, pp, c)
-           \/ InboxPublish(a, n, b, c))
-     \/ \E w \in PickOne({w \in Wants : inbox[a][n] # Nil /\ RefSub(inbox[a][n].cap.bt, w)}, Wants) : InboxUnpublish(a, n, w)
-     \/ \E w \in PickOne({w \in Wants : inbox[b][n] # Nil /\ RefSub(inbox[b][n].cap.bt, w)}, Wants) : InboxClaim(a, n, b, w)
+  \E id \in PickOne({i \in Ids : Live(o, i)}, 1..(MaxCtrl + 1)), k1 \in One(1..NActs), k2 \in One(1..NActs), k3 \in One(1..NActs), k4 \in One(1..NActs) :
+  \E k \in {k1, k2, k3, k4} :
+     CASE k = 1 -> Put(o, p, v)
+       [] k = 2 -> IF store[o][p] # NoneV THEN Take(o, p) ELSE Put(o, p, v)
+       [] k = 3 -> Put(o, q, v)
+       [] k = 4 -> Issue(o, p, bt)
+       [] k = 5 -> IssueAccount(o, abt)
+       [] k = 6 -> Retarget(o, id, q)
+       [] k = 7 -> SetTag(o, id, t)
+       [] k = 8 -> Delete(o, id)
+       [] k = 9 -> GetController(o, id, kd)
+       [] k = 10 -> GetControllers(o, p)
+       [] k = 11 -> ForEachController(o, q)
+       [] k = 12 -> AcctControllers(o)
+       [] k = 13 -> Exists(a, pp)
+       [] k = 14 -> Unpublish(a, pp)
+       [] k \in {15, 16} -> \E w \in PickOne({w \in Wants : PubBorrowOK(a, pp, w)}, Wants) : PubBorrow(a, pp, w)
+       [] k \in {17, 18} -> \E w \in PickOne({w \in Wants : GetOK(a, pp, w)}, Wants) : Get(a, pp, w)
+       [] caps = {} /\ k >= 19 /\ k <= 25 -> Issue(o, p, bt)
+       [] k \in {19, 20} -> caps # {} /\ \E c \in One(caps) : \E w \in PickOne({w \in Wants : BorrowOK(c, w)}, Wants) : CapBorrow(c, w)
+       [] k = 21 -> caps # {} /\ \E c \in One(caps), w \in One(Wants) : CapBorrow(c, w)
+       [] k \in {22, 23} -> caps # {} /\ \E c \in One(caps) : \E pa \in PickOne({c.acct}, Accts) : Publish(pa, pp, c)
+       [] k \in {24, 25} -> caps # {} /\ \E c \in One(caps) : InboxPublish(a, n, b, c)
+       [] k = 26 -> \E w \in PickOne({w \in Wants : inbox[a][n] # Nil /\ RefSub(inbox[a][n].cap.bt, w)}, Wants) : InboxUnpublish(a, n, w)
+       [] OTHER -> \E w \in PickOne({w \in Wants : inbox[b][n] # Nil /\ RefSub(inbox[b][n].cap.bt, w)}, Wants) : InboxClaim(a, n, b, w)
 \* the last step of a history is a single stuttering "end" entry, so that the printing invariant fires
 \* once per history (in simulation mode TLC evaluates invariants on every candidate successor)
 SimNext == IF Len(hist) < SimDepth - 1
